@@ -108,3 +108,73 @@ Definition check_feature
               (fun p => snd (fst (bits_of tbl p)))
               (fun p => snd (bits_of tbl p))
               pu order f) obs.
+
+(* ------------------------------------------------------------------ units and device profiles
+
+   What a protocol registers can depend on the service's properties and on the settings (device
+   model, OS version, AirPlay feature flags, kind of credentials, the AirPlay->MRP tunnel), and
+   one setup() can yield several SetupData (AirPlay yields RAOP for unified advertisers and MRP
+   through the tunnel).  A `unit` is ONE yielded SetupData as it is under one device profile. *)
+From Coq Require Import String.
+
+Record unit := {
+  u_id : nat;                                  (* position in the profile's table *)
+  u_src : proto;                               (* the protocol whose setup() yielded it *)
+  u_proto : proto;                             (* SetupData.protocol *)
+  u_feats : list feature;                      (* SetupData.features *)
+  u_impl : list (iface * list string);         (* SetupData.interfaces: members the class overrides *)
+  u_ok : bool                                  (* every registered object is truthy and an instance of its base *)
+}.
+
+Definition u_iface (u : unit) (i : iface) : option (list string) :=
+  match find (fun e => iface_eqb (fst e) i) (u_impl u) with
+  | Some (_, ms) => Some ms
+  | None => None
+  end.
+
+Definition u_has (u : unit) (i : iface) : bool :=
+  match u_iface u i with Some _ => true | None => false end.
+
+(* the class the unit registers for interface i overrides member m *)
+Definition impl_u (u : unit) (i : iface) (m : string) : bool :=
+  match u_iface u i with
+  | Some ms => existsb (String.eqb m) ms
+  | None => false
+  end.
+
+(* FacadeAppleTV.connect: `if setup_data.protocol in self._protocol_handlers: continue` -
+   of several SetupData for the same protocol only the first one is set up *)
+Fixpoint eff (order : list unit) (done : list proto) : list unit :=
+  match order with
+  | [] => []
+  | u :: rest =>
+      if memp (u_proto u) done then eff rest done
+      else u :: eff rest (done ++ [u_proto u])
+  end.
+
+Definition unit_of (us : list unit) (p : proto) : option unit :=
+  find (fun u => proto_eqb (u_proto u) p) us.
+
+Definition ufeats (us : list unit) (p : proto) : list feature :=
+  match unit_of us p with Some u => u_feats u | None => [] end.
+Definition uhas (i : iface) (us : list unit) (p : proto) : bool :=
+  match unit_of us p with Some u => u_has u i | None => false end.
+
+(* what the features interface answers after the SetupData `order` were added and connected *)
+Definition feature_of_units (prio : list proto) (push_updates : feature) (order : list unit)
+           (f : feature) : fres :=
+  let us := eff order [] in
+  feature_of prio (ufeats us) (uhas IFeatures us) (uhas IPushUpdater us) push_updates
+             (map u_proto us) f.
+
+(* the registration the set-up units produce for member m of interface i *)
+Definition reg_units (us : list unit) (i : iface) (m : string) : registry :=
+  fun p =>
+    match unit_of us p with
+    | Some u =>
+        match u_iface u i with
+        | Some ms => Some {| truthy := u_ok u; has_attr := u_ok u; overrides := existsb (String.eqb m) ms |}
+        | None => None
+        end
+    | None => None
+    end.
